@@ -104,6 +104,26 @@ func VerifSelftestMaps() {
 		sum += x + len(k)
 	}
 	vObserve("range-sum", sum)
+	// sync.Map (engine: built-in model)
+	var sm sync.Map
+	_, ok1 := sm.Load("k")
+	sm.Store("k", 7)
+	sm.Store(42, "x")
+	v2, ok2 := sm.Load("k")
+	act, loaded := sm.LoadOrStore("k", 9)
+	act2, loaded2 := sm.LoadOrStore("n", 11)
+	sm.Delete(42)
+	_, ok3 := sm.Load(42)
+	v4, ok4 := sm.LoadAndDelete("n")
+	_, ok5 := sm.Load("n")
+	b2i := func(b bool) int {
+		if b {
+			return 1
+		}
+		return 0
+	}
+	vObserve("syncmap-flags", b2i(ok1)+2*b2i(ok2)+4*b2i(loaded)+8*b2i(loaded2)+16*b2i(ok3)+32*b2i(ok4)+64*b2i(ok5))
+	vObserve("syncmap-values", v2.(int)*1000000+act.(int)*10000+act2.(int)*100+v4.(int))
 	delete(m, "a")
 	vObserve("after-delete", len(m))
 	var nm map[int]int
